@@ -92,7 +92,8 @@ NUMPY_FUNCS = {
     "log10": lambda x: sp.log(x, 10), "log1p": lambda x: sp.log(1 + x), "expm1": lambda x: sp.exp(x) - 1,
     "tanh": sp.tanh, "arctan": sp.atan, "square": lambda x: x**2, "power": lambda a, b: a**b,
     "maximum": sp.Max, "minimum": sp.Min, "float64": lambda x: x, "asarray": lambda x: x, "array": lambda x: x,
-    "atleast_1d": lambda x: x,
+    "atleast_1d": lambda x: x, "copysign": lambda a, b: sp.Abs(a) * sp.sign(b), "sign": sp.sign, "hypot": lambda a, b: sp.sqrt(a**2 + b**2),
+    "where": lambda c, a, b: sp.Piecewise((a, c), (b, True)),
 }
 SPECIAL = {
     "gamma": sp.gamma, "gammaincc": lambda a, x: sp.uppergamma(a, x) / sp.gamma(a),
